@@ -34,6 +34,9 @@ pub struct Cfg {
     /// top-level calls are often a Migrate that is AUTHORISED (sent by the admin the setup gave the even-numbered
     /// contracts, to a code that has a migrate entry point) and whose program has sub-messages with replies
     pub migrate_bias: bool,
+    /// block heights occasionally jump beyond i64::MAX (a u64 height is legal; whatever a contract is told must
+    /// be the simulator's block)
+    pub huge_blocks: bool,
 }
 impl Default for Cfg {
     fn default() -> Self {
@@ -53,6 +56,7 @@ impl Default for Cfg {
             probe_funds: false,
             set_remove_bias: false,
             migrate_bias: false,
+            huge_blocks: false,
             wrapped_codes: false,
         }
     }
@@ -493,6 +497,9 @@ impl<'a> G<'a> {
             if self.cfg.block_changes && self.rng.chance(1, 3) {
                 b.height += 1 + self.rng.below(3);
                 b.time_ns += 5_000_000_000 * (1 + self.rng.below(3));
+            }
+            if self.cfg.huge_blocks && b.height < (1u64 << 62) && self.rng.chance(1, 12) {
+                b.height = *self.rng.pick(&[i64::MAX as u64, i64::MAX as u64 + 1, u64::MAX - 1000]);
             }
             let op = self.top_op();
             steps.push(Step { block: b.clone(), op });
